@@ -87,6 +87,16 @@ where
     let wrapped_lines = wrap(text, options);
     let lines_per_column =
         wrapped_lines.len() / columns + usize::from(wrapped_lines.len() % columns > 0);
+    #[cfg(feature = "verif-hooks")]
+    crate::verif::emit(
+        "wrap_columns.layout",
+        &[
+            crate::verif::n(inner_width),
+            crate::verif::n(column_width),
+            crate::verif::n(wrapped_lines.len()),
+            crate::verif::n(lines_per_column),
+        ],
+    );
     let mut lines = Vec::new();
     for line_no in 0..lines_per_column {
         let mut line = String::from(left_gap);
